@@ -155,6 +155,10 @@ pub fn run(ctx: &Ctx) -> Outcome {
             for (ivn, iv) in iv_variants(seed, iv_len).into_iter().skip(tier.pick(2, 1)) {
                 for (dn, data) in data_variants(seed, 0xC07, (nbfs + 2) * g).into_iter().skip(tier.pick(2, 1)) {
                     let want = fam_ref(cfg, fam, *dir, key, &iv, &data, g);
+                    rep.outcome(&want.out);
+                    for st in &want.states {
+                        rep.outcome(st);
+                    }
                     // the baseline: one block at a time through the single-block entry point must equal the reference
                     rep.case(|| {
                         let pieces: Vec<P> = (0..ncomp.max(4)).map(|_| P { len: g, kind: Kind::InPlace, single: true }).collect();
